@@ -21,6 +21,10 @@ Record mline := { l_unique : bool; l_hash : hash; l_fp : fp; l_size : N; l_path 
 
 Definition hmem (h : hash) (l : list hash) := existsb (heqb h) l.
 
+(* repair of finding F6 (commit d28d72c): the "unchanged since the last backup" shortcut also requires the recorded
+   size to equal the current one.  fx6 = false is the behaviour before the repair. *)
+Variable fx6 : bool.
+
 (* ---- verification (BackupGroup::inspect / Backup::inspect) ---- *)
 Fixpoint inspect_lines (acc : list hash) (ls : list mline) : bool * list hash :=
   match ls with
@@ -50,12 +54,15 @@ Fixpoint last_lookup (p : path) (ls : list mline) : option mline :=
   | l :: ls' => match last_lookup p ls' with Some x => Some x | None => if peqb p (l_path l) then Some l else None end
   end.
 
+Definition shortcut (f : wfile) (l : mline) : bool :=
+  fp_eqb (w_fp f) (l_fp l) && (negb fx6 || (w_size f =? l_size l)).
+
 Definition add_file (known : list hash) (last : list mline) (f : wfile) : mline * list hash :=
   if w_size f =? 0 then
     ({| l_unique := false; l_hash := EMPTY; l_fp := w_fp f; l_size := 0; l_path := w_path f |}, known)
   else
     match last_lookup (w_path f) last with
-    | Some l => if fp_eqb (w_fp f) (l_fp l)
+    | Some l => if shortcut f l
                 then ({| l_unique := false; l_hash := l_hash l; l_fp := w_fp f; l_size := w_size f; l_path := w_path f |}, known)
                 else let h := H (w_data f) in
                      if hmem h known
@@ -79,7 +86,14 @@ Definition new_backup (g : list (list mline)) (fs : list wfile) : list mline :=
 (* the premise the proof forces (finding F6 lives exactly in its negation) *)
 Definition FpSize (g : list (list mline)) (fs : list wfile) : Prop :=
   forall f l, In f fs -> w_size f <> 0 -> last_lookup (w_path f) (last g []) = Some l ->
-              fp_eqb (w_fp f) (l_fp l) = true -> l_size l <> 0.
+              shortcut f l = true -> l_size l <> 0.
+
+(* with the repair the premise always holds *)
+Lemma FpSize_repaired : fx6 = true -> forall g fs, FpSize g fs.
+Proof.
+  intros Hfx g fs f l _ Hnz _ Hs. unfold shortcut in Hs. rewrite Hfx in Hs. cbn [negb orb] in Hs.
+  apply andb_true_iff in Hs as [_ Hs]. apply N.eqb_eq in Hs. congruence.
+Qed.
 
 (* ---------------- proofs ---------------- *)
 Lemma hmem_In : forall h l, hmem h l = true <-> In h l.
@@ -201,7 +215,7 @@ Proof.
       { revert Ea. unfold add_file. destruct (N.eqb_spec (w_size f) 0) as [Hz|Hnz].
         - intros Ea; inversion Ea; subst; cbn [l_unique l_hash l_size app]. split; [congruence| auto].
         - destruct (last_lookup (w_path f) (last g [])) as [ll|] eqn:El.
-          + destruct (fp_eqb (w_fp f) (l_fp ll)) eqn:Efp.
+          + destruct (shortcut f ll) eqn:Efp.
             * intros Ea; inversion Ea; subst; cbn [l_unique l_hash l_size app]. split; [|auto]. intros _ _. apply in_or_app. right.
               apply last_hash_known; auto. eapply last_lookup_In; eauto. eapply Hfp; eauto.
             * destruct (hmem (H (w_data f)) K) eqn:Em; intros Ea; inversion Ea; subst; cbn [l_unique l_hash l_size app].
@@ -243,7 +257,7 @@ Proof.
   assert (Hk : (l_unique l = true /\ known' = l_hash l :: known) \/ (l_unique l = false /\ known' = known)).
   { unfold add_file in Ea. destruct (w_size f =? 0); [inversion Ea; auto|].
     destruct (last_lookup (w_path f) last) as [l0|].
-    - destruct (fp_eqb (w_fp f) (l_fp l0)); [inversion Ea; auto|].
+    - destruct (shortcut f l0); [inversion Ea; auto|].
       destruct (hmem (H (w_data f)) known); inversion Ea; auto.
     - destruct (hmem (H (w_data f)) known); inversion Ea; auto. }
   destruct l1 as [|y l1]; cbn [app] in E; inversion E; subst.
@@ -251,8 +265,8 @@ Proof.
     clear IH E. unfold add_file in Ea. destruct (w_size f =? 0) eqn:Ez.
     + inversion Ea; subst. cbn in Hs. congruence.
     + destruct (last_lookup (w_path f) last) as [l0|] eqn:El.
-      * destruct (fp_eqb (w_fp f) (l_fp l0)) eqn:Ef.
-        -- inversion Ea; subst. cbn [l_path l_hash l_fp]. right. exists l0. auto.
+      * destruct (shortcut f l0) eqn:Ef.
+        -- inversion Ea; subst. cbn [l_path l_hash l_fp]. right. exists l0. unfold shortcut in Ef. apply andb_true_iff in Ef as [Ef _]. auto.
         -- destruct (hmem (H (w_data f)) known) eqn:Em; inversion Ea; subst; cbn in Hu; try discriminate.
            left. cbn [l_hash uniques]. rewrite app_nil_r. now apply hmem_In.
       * destruct (hmem (H (w_data f)) known) eqn:Em; inversion Ea; subst; cbn in Hu; try discriminate.
@@ -289,12 +303,26 @@ Qed.
 
 Corollary history_from_empty_ok : forall runs, HistoryFpSize [] runs -> group_ok (group_history [] runs) = true.
 Proof. intros. now apply history_group_ok. Qed.
+
+(* with the repair: unconditional *)
+Lemma HistoryFpSize_repaired : fx6 = true -> forall runs g, HistoryFpSize g runs.
+Proof.
+  intros Hfx runs; induction runs as [|[fs|] runs IH]; intro g; cbn [HistoryFpSize]; auto.
+  split; [now apply FpSize_repaired | apply IH].
+Qed.
+Theorem run_preserves_group_ok_repaired : fx6 = true -> forall g fs,
+  group_ok g = true -> group_ok (g ++ [new_backup g fs]) = true.
+Proof. intros Hfx g fs Hok. apply run_preserves_group_ok; auto. now apply FpSize_repaired. Qed.
+Theorem history_group_ok_repaired : fx6 = true -> forall runs g,
+  group_ok g = true -> group_ok (group_history g runs) = true.
+Proof. intros Hfx runs g Hok. apply history_group_ok; auto. now apply HistoryFpSize_repaired. Qed.
 End Dedup.
 Print Assumptions run_preserves_group_ok.
 Print Assumptions run_no_new_damage.
 Print Assumptions history_group_ok.
 
-(* F6 inside the model: without FpSize the run breaks the group (hash := list N, H := id) *)
+(* F6 inside the model: before the repair (fx6 = false) the run breaks the group, after it (fx6 = true) it does not
+   (hash := list N, H := id) *)
 Fixpoint leqb (a b : list N) : bool :=
   match a, b with [], [] => true | x :: a', y :: b' => (x =? y) && leqb a' b' | _, _ => false end.
 Definition f0 : fp := (1, 2, 3%Z).
@@ -303,5 +331,6 @@ Definition g6 : list (list (mline (list N))) :=
 Definition fs6 := [ {| w_path := [7]; w_fp := f0; w_data := [97; 98; 99] |} ].
 Example F6_refuted :
   group_ok (list N) leqb g6 = true /\
-  group_ok (list N) leqb (g6 ++ [new_backup (list N) leqb (fun d => d) [] leqb g6 fs6]) = false.
+  group_ok (list N) leqb (g6 ++ [new_backup (list N) leqb (fun d => d) [] leqb false g6 fs6]) = false /\
+  group_ok (list N) leqb (g6 ++ [new_backup (list N) leqb (fun d => d) [] leqb true g6 fs6]) = true.
 Proof. vm_compute. auto. Qed.
